@@ -25,6 +25,11 @@ impl STMFocus {
     }
 
     pub(crate) fn create(p: &Point3, intensity_or_offset: u8) -> Result<Self, AUTDDriverError> {
+        // NaN converts to the fixed-point value 0 and would pass the range check below
+        if !(p.x.is_finite() && p.y.is_finite() && p.z.is_finite()) {
+            return Err(AUTDDriverError::FociSTMPointOutOfRange(p.x, p.y, p.z));
+        }
+
         let ix = Self::to_fixed_num(p.x);
         let iy = Self::to_fixed_num(p.y);
         let iz = Self::to_fixed_num(p.z);
